@@ -10,7 +10,10 @@ pub struct Waker { pub id: Ghost<int> }
 pub type WakerRef = Waker;
 pub struct WakeThread(pub Arc<JobQueue>, pub Thread);
 pub struct WakeQueue(pub Arc<JobQueue>, pub Arc<SchedulerCore>);
-pub struct SchedulerCore { pub schedule: Arc<Mutex<Schedule>> }
+/// a pool thread (opaque); whether its OS thread has finished is a stable ghost fact
+pub struct SchedulerThread { pub id: Ghost<int> }
+pub type ThreadEntry = (Arc<LogMutex<bool>>, SchedulerThread);
+pub struct SchedulerCore { pub schedule: Arc<Mutex<Schedule>>, pub threads: LogMutex<Vec<ThreadEntry>>, pub max_threads: LogMutex<usize> }
 pub struct Scheduler { pub core: Arc<SchedulerCore> }
 
 impl Thread {
